@@ -289,7 +289,7 @@ func perms(n int) [][]int {
 }
 
 func run(c *enum.Ctx) {
-	c.Rule("every multiset of <=3 feature pairs over the 15 intervals [s,e) 0<=s<e<=5 on one location (thorough: 0..6, 21 intervals) and every multiset of <=2 pairs over two locations, in every insertion order, every orientation of each pair, with the four pair filters, the same after sequences of earlier Piles calls with other filters (partial, partial+nil; thorough also nil+partial, partial+none, all+partial), a repeated Piles call and a re-insertion of each pair in either orientation; reference = union-find over 'same location and overlapping or abutting'; distinct = (multiset, order, flips, filter); non-trivial = multisets with at least two features on one location that overlap or abut")
+	c.Rule("every multiset of <=3 feature pairs over the 15 intervals [s,e) 0<=s<e<=5 on one location (thorough: 0..6, 21 intervals) and every multiset of <=2 pairs over two locations, in every insertion order, every orientation of each pair, with the four pair filters, the same after sequences of earlier Piles calls with other filters (partial, partial+nil, nil+partial; thorough also partial+none, all+partial), a repeated Piles call and a re-insertion of each pair in either orientation; reference = union-find over 'same location and overlapping or abutting'; distinct = (multiset, order, flips, filter); non-trivial = multisets with at least two features on one location that overlap or abut")
 	maxE := 5
 	if !c.Quick {
 		maxE = 6
@@ -370,7 +370,7 @@ func run(c *enum.Ctx) {
 					// earlier Piles calls with other filters must not change what a later call reports
 					befores := [][]int{{3}, {3, 0}, {0, 3}, {3, 2}, {1, 3}}
 					if c.Quick {
-						befores = befores[:2]
+						befores = befores[:3]
 					}
 					for _, before := range befores {
 						for filt := 0; filt < 4; filt++ {
